@@ -318,6 +318,8 @@ def assign_iterable(lhs, rhs, other, ctx):
         lhs[rhs] = other
         return vy_sum(lhs, ctx=ctx)
     else:
+        # Never write into the caller's list or into a lazy list's shared cache
+        lhs = deep_copy(lhs) if isinstance(lhs, LazyList) else lhs[::]
         lhs[rhs] = other
         return lhs
 
